@@ -21,8 +21,13 @@ def atom_name_field(name):
 def pdb_atom_line(r):
     occ = 1.0 if r["occ"] is None else r["occ"]
     b = 0.0 if r["b"] is None else r["b"]
+    head = f"{r['rec']:<6}{r['serial']:>5} "
+    if r["serial"] > 99999 and r["rec"] == "ATOM":
+        # de-facto extension written by several programs for very large systems: the sixth digit takes the blank
+        # column after the record name; every later column stays where it is
+        head = f"ATOM {r['serial']:>6} "
     line = (
-        f"{r['rec']:<6}{r['serial']:>5} {atom_name_field(r['name'])}{(r['alt'] or ' ')[:1]}{r['resname']:>3} "
+        f"{head}{atom_name_field(r['name'])}{(r['alt'] or ' ')[:1]}{r['resname']:>3} "
         f"{(r['chain'] or ' ')[:1]}{r['resseq']:>4}{(r['icode'] or ' ')[:1]}   "
         f"{r['x']:8.3f}{r['y']:8.3f}{r['z']:8.3f}{occ:6.2f}{b:6.2f}          "
         f"{(r['element'] or ''):>2}{(r['charge'] or ''):>2}"
@@ -101,7 +106,22 @@ def charge_to_cif(c):
     return c
 
 
-def emit_cif(rows, null="?", nulls=None, extra_cats=None, name="vmon", label_seq="index", drop_cols=(), label_asym="auth", col_order=None, decimals=3):
+def _occ_spelling(v, k):
+    """The same number in the other spellings the mmCIF number grammar allows (leading sign, exponent, no leading
+    zero); k selects one."""
+    k = k % 5
+    if k == 1:
+        return f"+{v:.2f}"
+    if k == 2:
+        return f"{v:.1E}" if float(f"{v:.1E}") == v else f"{v:.2f}"
+    if k == 3 and 0 < v < 1:
+        return f"{v:.2f}"[1:]
+    if k == 4:
+        return f"{v:.3e}" if float(f"{v:.3e}") == v else f"{v:.2f}"
+    return f"{v:.2f}"
+
+
+def emit_cif(rows, null="?", nulls=None, extra_cats=None, name="vmon", label_seq="index", drop_cols=(), label_asym="auth", col_order=None, decimals=3, occ_spellings=False):
     # col_order: a permutation of CIF_COLS (mmCIF does not prescribe an item order); decimals: coordinate precision
     """nulls: optional {column: marker} overriding the default null marker.
     label_asym="wide": label_asym_id is a two-character id (as in entries with more than 26 asym units)
@@ -135,7 +155,7 @@ def emit_cif(rows, null="?", nulls=None, extra_cats=None, name="vmon", label_seq
             "label_alt_id": nv("label_alt_id", r["alt"]), "label_comp_id": r["resname"], "label_asym_id": nv("label_asym_id", lasym),
             "label_entity_id": "1", "label_seq_id": lseq, "pdbx_PDB_ins_code": nv("pdbx_PDB_ins_code", r["icode"]),
             "Cartn_x": f"{r['x']:.{decimals}f}", "Cartn_y": f"{r['y']:.{decimals}f}", "Cartn_z": f"{r['z']:.{decimals}f}",
-            "occupancy": nv("occupancy", None if r["occ"] is None else f"{r['occ']:.2f}"),
+            "occupancy": nv("occupancy", None if r["occ"] is None else (_occ_spelling(r["occ"], len(table)) if occ_spellings else f"{r['occ']:.2f}")),
             "B_iso_or_equiv": nv("B_iso_or_equiv", None if r["b"] is None else f"{r['b']:.2f}"),
             "pdbx_formal_charge": nv("pdbx_formal_charge", charge_to_cif(r["charge"])),
             "auth_seq_id": str(r["resseq"]), "auth_comp_id": r["resname"], "auth_asym_id": nv("auth_asym_id", r["chain"] if (r["chain"] or "").strip() else None),
@@ -230,10 +250,18 @@ def add_alternate_conformers(rows, seed, major="B"):
     return out
 
 
-def format_twins(structure, altloc_seed=None):
+def format_twins(structure, altloc_seed=None, edges_seed=None):
     """(structure read from PDB text, structure read from mmCIF text) of the
     same 3-decimal table, or None when the table does not fit PDB limits."""
     rows = rows_from_structure(structure)
+    if edges_seed is not None:
+        # fields filled to their edges: five-digit serials touching HETATM, coordinates taking all eight columns,
+        # negative residue numbers (see work3d.field_edges_rows)
+        import random
+
+        from vmon import work3d
+
+        work3d.field_edges_rows(rows, random.Random(edges_seed))
     if altloc_seed is not None:
         rows = add_alternate_conformers(rows, altloc_seed, major="B" if hash_bit(altloc_seed) else "A")
     if not rows or not fits_pdb(rows):
